@@ -74,6 +74,18 @@ def judge_translate(f, ref, w, sub="translate", extra_tags=()):
         core.report(PROP, sub, "exception:" + type(e).__name__, {"word": list(w)}, tags)
         return
     gs = set(got)
+    if gs == exp and sub == "translate" and len(w) <= 2:
+        # the yielded lists belong to the caller: editing them must not change what the transducer writes
+        try:
+            with core.step_budget(budget):
+                first = list(f.translate(list(w)))
+                for o in first:
+                    o.append("<edited-by-caller>")
+                again = set(tuple(o) for o in f.translate(list(w)))
+            if again != exp:
+                core.report(PROP, "translate", "returned-list-is-live", {"word": list(w)}, tags)
+        except (core.StepBudgetExceeded, Exception):
+            pass
     if gs != exp:
         miss, extra = exp - gs, gs - exp
         core.report(PROP, sub, "missing-output" if miss else "extra-output",
